@@ -819,7 +819,7 @@ func (r *plRun) assign(path []string, val Value) error {
 		if td == nil || td.Fields == nil {
 			return pgErr("42703", "variable %q has no field %q", path[0], path[1])
 		}
-		rec = &Record{Type: td.Name}
+		rec = &Record{Type: td.Schema + "." + td.Name}
 		for _, f := range td.Fields {
 			rec.Names = append(rec.Names, f.Name)
 			rec.Vals = append(rec.Vals, nil)
@@ -883,13 +883,16 @@ func (r *plRun) assignRow(targets [][]string, rs *RowSet) error {
 		lt := strings.ToLower(v.typ)
 		composite := lt == "record"
 		var fields []ColDef
+		qual := ""
 		if !composite {
 			if td := r.s.findType(v.typ); td != nil && td.Fields != nil {
 				composite = true
 				fields = td.Fields
+				qual = td.Schema + "." + td.Name
 			} else if baseTypeKnown(v.typ) == false {
 				if t := r.s.findRowType(v.typ); t != nil {
 					composite = true
+					qual = t.qname()
 					for _, c := range t.Cols {
 						fields = append(fields, ColDef{Name: c.Name, Type: c.Type})
 					}
@@ -910,7 +913,7 @@ func (r *plRun) assignRow(targets [][]string, rs *RowSet) error {
 			}
 			rec := &Record{Type: "", Names: cols, Vals: row}
 			if fields != nil {
-				rec = &Record{Type: strings.ToLower(lastPart(v.typ))}
+				rec = &Record{Type: qual}
 				x := r.ctx()
 				for i, f := range fields {
 					var fv Value
